@@ -1,5 +1,4 @@
--- imports RouterBuildPresent_proof.lean (Probe.Preserve)
-import Probe.Preserve
+import RouterBuildPresent_proof
 /-! Proof probe for C05: the glue between the construction half and the matching half of completeness. -/
 namespace Tree
 
